@@ -223,16 +223,11 @@ def d11_5(ctx):
 def d11_6(ctx):
     """send() passes the session handle and the connection id the target granted; their only writers are the grant/reset sites."""
     drv = ctx.model.cls(f"{CD}:CIPDriver")
-    send = drv.methods["send"]
-    kw = {}
-    for n in walk(send):
-        if isinstance(n, ast.Dict):
-            for k, v in zip(n.keys, n.values):
-                if k is not None:
-                    kw[ctx.folder.eval(k, drv.module)] = src(v).replace('"', "'")
-    good = kw.get("target_cid") == "self._target_cid" and kw.get("session_id") == "self._session" and kw.get("context") == "self._cfg['context']" and kw.get("option") == "self._cfg['option']"
-    call_ok = any(isinstance(c, ast.Call) and attr_path(c.func) == "request.build_request" and any(k.arg is None for k in c.keywords) for c in walk(send))
-    ctx.check(good and call_ok, ckey(drv.key + ".send", "kwargs"), send, "frame built with self._session / self._target_cid / configured context and options", f"send() wires {kw}: the granted session handle / connection id are not what is sent", kwargs=kw)
+    # the frame is built with self._session / self._target_cid / the configured context and options: decided by folding `send` on
+    # witness requests (D11.13) - an earlier form read the keyword dict inside `send` and alarmed when the exchange moved into a helper
+    from .driver import _send_rule
+
+    _send_rule(ctx)
     opt = None
     for n in walk(drv.methods["__init__"]):
         if isinstance(n, ast.Dict):
